@@ -531,6 +531,29 @@ def concl_key(prog: Program) -> RuleResult:
     return r
 
 
+def rule_context(prog: Program) -> RuleResult:
+    """`with query:` opens the place where the base conclusions are written: the conditions of the query as they are *when the block is
+    entered*.  Branches written inside the block re-hang selectors above those conditions; a conclusion written after a branch still belongs
+    to the base.  So the node is resolved once, in __enter__, and the stack hands back what was pushed - resolved on every lookup instead,
+    'the conditions root' is the selector by then, whose conclusion set is transient: the conclusion is silently lost."""
+    r = RuleResult("RULE-CONTEXT", "the node a with-block writes to is fixed when the block is entered", floor=2)
+    se = prog.cls("symbolic.SymbolicExpression")
+    en = prog.lookup(se.qual, "__enter__")
+    cp = prog.lookup(se.qual, "_current_parent_")
+    if en is None or cp is None:
+        raise AnalysisError("RULE-CONTEXT: __enter__ / _current_parent_ vanished")
+    pushes = [c for c in calls_in(en.node) if call_name(c) == "append" and "_symbolic_expression_stack_" in src(c.func)]
+    resolved_at_entry = any("_conditions_root_" in src(x) for x in walk_local(en.node))
+    pushed_self = any(c.args and isinstance(c.args[0], ast.Name) and c.args[0].id == en.params[0] for c in pushes)
+    r.check(bool(pushes) and resolved_at_entry and not pushed_self, f"{en.short}#conditions-resolved-at-entry", site(en), src(pushes[0])[:60] if pushes else "", "the conditions of the query are looked up in __enter__ and pushed",
+            "the block pushes the query itself: which node stands for 'its conditions' is decided later, after branches written in the block have re-hung the tree")
+    late = [x for x in walk_local(cp.node) if isinstance(x, ast.Attribute) and x.attr in ("_conditions_root_", "_root_", "_parent_")]
+    r.check(not late, f"{cp.short}#hands-back-what-was-pushed", site(cp, late[0]) if late else site(cp), src(late[0])[:60] if late else "stack top", "the current parent is the top of the stack as it was pushed",
+            f"`{src(late[0]) if late else ''}` is evaluated at every lookup: after a top-level refinement / alternative it names the selector, and a base conclusion written below the branch is attached to "
+            "the selector's transient conclusion set - it never fires")
+    return r
+
+
 def _cond_fold(prog):
     from .c01 import cond_fold
 
@@ -558,7 +581,7 @@ def run(prog: Program, tier: str) -> List[RuleResult]:
             # refinement(...) / alternative(...) / next_rule(...) fold the conditions of a branch like and_(...) does: none is dropped for being False
             guard(lambda: _cond_fold(prog)),
             # the surgery finds the operand that held the old node by identity
-            guard(lambda: expr_identity(prog)), guard(lambda: _ep_operand(prog)), guard(lambda: concl_key(prog))]
+            guard(lambda: expr_identity(prog)), guard(lambda: _ep_operand(prog)), guard(lambda: concl_key(prog)), guard(lambda: rule_context(prog))]
 
 
 NODE_FIELDS = ("left", "right", "_parent_", "_child_", "variable", "condition", "_var_", "_conditions_root_", "_root_")
